@@ -104,6 +104,11 @@ def params_from_cmd(config: Params) -> None:
             tests_str += "%s %s\n" % (key, value)
         elif key.startswith("only_") or key.startswith("no_"):
             if re.match("(only|no)_nets", key):
+                if nets_str == "" and "nets" in param_dict:
+                    raise ValueError(
+                        f"Cannot specify a nets restriction {value} together with "
+                        f"explicit net suffixes, currently also specified '{param_dict['nets']}'"
+                    )
                 nets_str = (
                     "%s %s\n" % (key.replace("_nets", ""), value) if value else ""
                 )
